@@ -61,10 +61,11 @@ Record state := mkstate {
   s_call_params : list (list dloc);
   s_hints : list (string * N);                    (* Id-node hint cache, keyed by node position+text *)
   s_cb : nat * option (nat * string);             (* harness callback `cb`: invocations so far; (n, kind) = throw `kind` on the n-th *)
-  s_evals : list (string * ast) * nat }.          (* texts eval() may be given, pre-parsed by the implementation's parser; eval() calls so far *)
+  s_evals : list (string * ast) * nat;            (* texts eval() may be given, pre-parsed by the implementation's parser; eval() calls so far *)
+  s_consts : list (string * dloc) }.              (* Constant_AST_Node::m_value: the one Boxed_Value each constant node owns, shared by all its evaluations *)
 
 Definition init_state : state :=
-  mkstate [] [] [[[]]] [] [] "" 0 [[]] [] (0, None) ([], 0).
+  mkstate [] [] [[[]]] [] [] "" 0 [[]] [] (0, None) ([], 0) [].
 
 (* ---------------------------------------------------------------- outcomes *)
 Inductive trace_entry := TE (k : kind) (l : srcloc).
@@ -98,17 +99,18 @@ Fixpoint replace_nth {A} (n : nat) (l : list A) (x : A) : list A :=
   | h :: t, S k => h :: replace_nth k t x
   end.
 
-Definition set_objs (s : state) v := mkstate v (s_data s) (s_stacks s) (s_globals s) (s_funcs s) (s_out s) (s_call_depth s) (s_call_params s) (s_hints s) (s_cb s) (s_evals s).
-Definition set_data (s : state) v := mkstate (s_objs s) v (s_stacks s) (s_globals s) (s_funcs s) (s_out s) (s_call_depth s) (s_call_params s) (s_hints s) (s_cb s) (s_evals s).
-Definition set_stacks (s : state) v := mkstate (s_objs s) (s_data s) v (s_globals s) (s_funcs s) (s_out s) (s_call_depth s) (s_call_params s) (s_hints s) (s_cb s) (s_evals s).
-Definition set_globals (s : state) v := mkstate (s_objs s) (s_data s) (s_stacks s) v (s_funcs s) (s_out s) (s_call_depth s) (s_call_params s) (s_hints s) (s_cb s) (s_evals s).
-Definition set_funcs (s : state) v := mkstate (s_objs s) (s_data s) (s_stacks s) (s_globals s) v (s_out s) (s_call_depth s) (s_call_params s) (s_hints s) (s_cb s) (s_evals s).
-Definition set_out (s : state) v := mkstate (s_objs s) (s_data s) (s_stacks s) (s_globals s) (s_funcs s) v (s_call_depth s) (s_call_params s) (s_hints s) (s_cb s) (s_evals s).
-Definition set_call_depth (s : state) v := mkstate (s_objs s) (s_data s) (s_stacks s) (s_globals s) (s_funcs s) (s_out s) v (s_call_params s) (s_hints s) (s_cb s) (s_evals s).
-Definition set_call_params (s : state) v := mkstate (s_objs s) (s_data s) (s_stacks s) (s_globals s) (s_funcs s) (s_out s) (s_call_depth s) v (s_hints s) (s_cb s) (s_evals s).
-Definition set_hints (s : state) v := mkstate (s_objs s) (s_data s) (s_stacks s) (s_globals s) (s_funcs s) (s_out s) (s_call_depth s) (s_call_params s) v (s_cb s) (s_evals s).
-Definition set_cb (s : state) v := mkstate (s_objs s) (s_data s) (s_stacks s) (s_globals s) (s_funcs s) (s_out s) (s_call_depth s) (s_call_params s) (s_hints s) v (s_evals s).
-Definition set_evals (s : state) v := mkstate (s_objs s) (s_data s) (s_stacks s) (s_globals s) (s_funcs s) (s_out s) (s_call_depth s) (s_call_params s) (s_hints s) (s_cb s) v.
+Definition set_objs (s : state) v := mkstate v (s_data s) (s_stacks s) (s_globals s) (s_funcs s) (s_out s) (s_call_depth s) (s_call_params s) (s_hints s) (s_cb s) (s_evals s) (s_consts s).
+Definition set_data (s : state) v := mkstate (s_objs s) v (s_stacks s) (s_globals s) (s_funcs s) (s_out s) (s_call_depth s) (s_call_params s) (s_hints s) (s_cb s) (s_evals s) (s_consts s).
+Definition set_stacks (s : state) v := mkstate (s_objs s) (s_data s) v (s_globals s) (s_funcs s) (s_out s) (s_call_depth s) (s_call_params s) (s_hints s) (s_cb s) (s_evals s) (s_consts s).
+Definition set_globals (s : state) v := mkstate (s_objs s) (s_data s) (s_stacks s) v (s_funcs s) (s_out s) (s_call_depth s) (s_call_params s) (s_hints s) (s_cb s) (s_evals s) (s_consts s).
+Definition set_funcs (s : state) v := mkstate (s_objs s) (s_data s) (s_stacks s) (s_globals s) v (s_out s) (s_call_depth s) (s_call_params s) (s_hints s) (s_cb s) (s_evals s) (s_consts s).
+Definition set_out (s : state) v := mkstate (s_objs s) (s_data s) (s_stacks s) (s_globals s) (s_funcs s) v (s_call_depth s) (s_call_params s) (s_hints s) (s_cb s) (s_evals s) (s_consts s).
+Definition set_call_depth (s : state) v := mkstate (s_objs s) (s_data s) (s_stacks s) (s_globals s) (s_funcs s) (s_out s) v (s_call_params s) (s_hints s) (s_cb s) (s_evals s) (s_consts s).
+Definition set_call_params (s : state) v := mkstate (s_objs s) (s_data s) (s_stacks s) (s_globals s) (s_funcs s) (s_out s) (s_call_depth s) v (s_hints s) (s_cb s) (s_evals s) (s_consts s).
+Definition set_hints (s : state) v := mkstate (s_objs s) (s_data s) (s_stacks s) (s_globals s) (s_funcs s) (s_out s) (s_call_depth s) (s_call_params s) v (s_cb s) (s_evals s) (s_consts s).
+Definition set_cb (s : state) v := mkstate (s_objs s) (s_data s) (s_stacks s) (s_globals s) (s_funcs s) (s_out s) (s_call_depth s) (s_call_params s) (s_hints s) v (s_evals s) (s_consts s).
+Definition set_evals (s : state) v := mkstate (s_objs s) (s_data s) (s_stacks s) (s_globals s) (s_funcs s) (s_out s) (s_call_depth s) (s_call_params s) (s_hints s) (s_cb s) v (s_consts s).
+Definition set_consts (s : state) v := mkstate (s_objs s) (s_data s) (s_stacks s) (s_globals s) (s_funcs s) (s_out s) (s_call_depth s) (s_call_params s) (s_hints s) (s_cb s) (s_evals s) v.
 
 (* every eval() call parses its text anew: the nodes (and their lookup hints) are fresh each time.
    The pre-parsed tree is therefore relabelled with line numbers unique to this call. *)
@@ -155,13 +157,19 @@ Definition leave_call (s : state) : state :=
   else s1.
 
 (* ---------------------------------------------------------------- primitive effects *)
+(* Heap access goes through operations that cannot break the constness discipline:
+   a write reaches an object only through a non-const Boxed_Value (PWrite), and every new
+   Boxed_Value that aliases an existing object inherits that object's constness (PAlias, PAssign). *)
 Inductive prim : Type -> Type :=
-| PAllocObj (o : obj) : prim oloc
-| PAllocData (d : data) : prim dloc
-| PGetData (d : dloc) : prim data
-| PSetData (d : dloc) (x : data) : prim unit
-| PGetObj (o : oloc) : prim obj
-| PSetObj (o : oloc) (x : obj) : prim unit
+| PNewValue (o : obj) (is_const is_ret : bool) : prim dloc   (* fresh Boxed_Value owning a fresh object *)
+| PNewUndef : prim dloc                                       (* Boxed_Value() *)
+| PGetData (d : dloc) : prim data                             (* flags (and object pointer) of a Boxed_Value *)
+| PObjOf (d : dloc) : prim (option obj)                       (* the object it holds; None when undefined *)
+| PAlias (d : dloc) (is_ret : bool) : prim dloc               (* a new Boxed_Value referring to d's object (Handle_Return<T&>): constness is inherited *)
+| PAssign (lhs rhs : dloc) : prim unit                        (* Boxed_Value::assign: *lhs.m_data = *rhs.m_data *)
+| PResetRet (d : dloc) : prim unit                            (* reset_return_value *)
+| PWrite (d : dloc) (x : obj) : prim bool                     (* overwrite d's object in place; false (and no effect) when d is const or undefined *)
+| PRebindFun (lhs rhs : dloc) : prim unit                     (* ptr_assign<Proxy_Function_Base>: lhs becomes a non-const handle on rhs's (immutable) function *)
 | PAddObject (name : string) (d : dloc) : prim bool                 (* false: the name exists in the innermost scope *)
 | PFindLocal (name : string) : prim (option (nat * nat * dloc))     (* by name: (scope distance, slot, value) *)
 | PSlot (dist slot : nat) : prim (option dloc)                      (* stack[size-1-dist].at_index(slot) *)
@@ -174,16 +182,66 @@ Inductive prim : Type -> Type :=
 | POut (text : string) : prim unit
 | PTick : prim (option string)                                      (* one more invocation of the harness callback; Some kind = it throws *)
 | PEvalTree (text : string) : prim (option ast)                     (* the tree the parser builds for this text, with fresh nodes *)
+| PGetConst (key : string) : prim (option dloc)                     (* the Boxed_Value a Constant node owns, once created *)
+| PSetConst (key : string) (d : dloc) : prim unit
 | PSaveParams (ps : list dloc) : prim unit.
 
 Definition run_prim {A} (p : prim A) : M A :=
   match p in prim T return M T with
-  | PAllocObj o => fun s => (RVal (OL (List.length (s_objs s))), set_objs s (app (s_objs s) [o]))
-  | PAllocData d => fun s => (RVal (DL (List.length (s_data s))), set_data s (app (s_data s) [d]))
+  | PNewValue o is_const is_ret =>
+      fun s => (RVal (DL (List.length (s_data s))),
+                set_data (set_objs s (app (s_objs s) [o])) (app (s_data s) [mkdata (Some (OL (List.length (s_objs s)))) is_const is_ret]))
+  | PNewUndef => fun s => (RVal (DL (List.length (s_data s))), set_data s (app (s_data s) [mkdata None false false]))
   | PGetData d => fun s => match nth_error (s_data s) (dl d) with Some x => (RVal x, s) | None => (RFail (FUnsup "dangling data"), s) end
-  | PSetData d x => fun s => (RVal tt, set_data s (replace_nth (dl d) (s_data s) x))
-  | PGetObj o => fun s => match nth_error (s_objs s) (ol o) with Some x => (RVal x, s) | None => (RFail (FUnsup "dangling object"), s) end
-  | PSetObj o x => fun s => (RVal tt, set_objs s (replace_nth (ol o) (s_objs s) x))
+  | PObjOf d =>
+      fun s => match nth_error (s_data s) (dl d) with
+               | None => (RFail (FUnsup "dangling data"), s)
+               | Some x => match d_obj x with
+                           | None => (RVal None, s)
+                           | Some l => match nth_error (s_objs s) (ol l) with
+                                       | Some o => (RVal (Some o), s)
+                                       | None => (RFail (FUnsup "dangling object"), s)
+                                       end
+                           end
+               end
+  | PAlias d is_ret =>
+      fun s => match nth_error (s_data s) (dl d) with
+               | None => (RFail (FUnsup "dangling data"), s)
+               | Some x => (RVal (DL (List.length (s_data s))), set_data s (app (s_data s) [mkdata (d_obj x) (d_const x) is_ret]))
+               end
+  | PAssign lhs rhs =>
+      fun s => match nth_error (s_data s) (dl rhs) with
+               | None => (RFail (FUnsup "dangling data"), s)
+               | Some x => (RVal tt, set_data s (replace_nth (dl lhs) (s_data s) x))
+               end
+  | PResetRet d =>
+      fun s => match nth_error (s_data s) (dl d) with
+               | None => (RFail (FUnsup "dangling data"), s)
+               | Some x => (RVal tt, set_data s (replace_nth (dl d) (s_data s) (mkdata (d_obj x) (d_const x) false)))
+               end
+  | PWrite d x =>
+      fun s => match nth_error (s_data s) (dl d) with
+               | None => (RFail (FUnsup "dangling data"), s)
+               | Some r => if d_const r then (RVal false, s)
+                           else match d_obj r with
+                                | Some l => (RVal true, set_objs s (replace_nth (ol l) (s_objs s) x))
+                                | None => (RVal false, s)
+                                end
+               end
+  | PRebindFun lhs rhs =>
+      fun s => match nth_error (s_data s) (dl rhs) with
+               | None => (RFail (FUnsup "dangling data"), s)
+               | Some r => match d_obj r with
+                           | Some l => match nth_error (s_objs s) (ol l) with
+                                       | Some (OFun f) =>
+                                           (* the function object is immutable and has no identity in the model: lhs gets its own copy *)
+                                           (RVal tt, set_data (set_objs s (app (s_objs s) [OFun f]))
+                                                       (replace_nth (dl lhs) (s_data s) (mkdata (Some (OL (List.length (s_objs s)))) false false)))
+                                       | _ => (RFail (FUnsup "rebind of a non-function"), s)
+                                       end
+                           | None => (RFail (FUnsup "rebind of a non-function"), s)
+                           end
+               end
   | PAddObject name d =>
       fun s => match s_stacks s with
                | (sc :: f) :: r =>
@@ -223,6 +281,8 @@ Definition run_prim {A} (p : prim A) : M A :=
                       | Some t => Some (shift_lines 4096 (Z.of_nat (S cnt) * 100000)%Z t)
                       | None => None
                       end), set_evals s (tbl, S cnt))
+  | PGetConst key => fun s => (RVal (assoc (s_consts s) key), s)
+  | PSetConst key d => fun s => (RVal tt, set_consts s ((key, d) :: s_consts s))
   | PSaveParams ps => fun s => (RVal tt, match s_call_params s with p :: r => set_call_params s ((app ps p) :: r) | [] => s end)
   end.
 
@@ -281,25 +341,15 @@ Definition throw {A} (e : exn) : prog A := Fail (FThrow e).
 Definition eval_error {A} (reason : string) : prog A := throw (EEval reason []).
 Definition unsup {A} (w : string) : prog A := Fail (FUnsup w).
 
-(* a fresh Boxed_Value owning a fresh object *)
-Definition new_value (o : obj) (is_const is_ret : bool) : prog dloc :=
-  l <- Prim (PAllocObj o) ;; Prim (PAllocData (mkdata (Some l) is_const is_ret)).
-Definition new_undef : prog dloc := Prim (PAllocData (mkdata None false false)).
+(* DERIVED-OPS *)
+Definition new_value (o : obj) (is_const is_ret : bool) : prog dloc := Prim (PNewValue o is_const is_ret).
+Definition new_undef : prog dloc := Prim PNewUndef.
 Definition void_var : prog dloc := new_value OVoid false false.   (* void_var() is a shared static; only its identity differs *)
 
 (* the object a Boxed_Value holds; None for an undefined value *)
-Definition obj_of (d : dloc) : prog (option obj) :=
-  x <- Prim (PGetData d) ;;
-  match d_obj x with
-  | None => Ret None
-  | Some l => o <- Prim (PGetObj l) ;; Ret (Some o)
-  end.
-
-Definition reset_ret (d : dloc) : prog unit :=
-  x <- Prim (PGetData d) ;; Prim (PSetData d (mkdata (d_obj x) (d_const x) false)).
-(* Boxed_Value::assign: *m_data = *rhs.m_data *)
-Definition assign_data (lhs rhs : dloc) : prog unit :=
-  x <- Prim (PGetData rhs) ;; Prim (PSetData lhs x).
+Definition obj_of (d : dloc) : prog (option obj) := Prim (PObjOf d).
+Definition reset_ret (d : dloc) : prog unit := Prim (PResetRet d).
+Definition assign_data (lhs rhs : dloc) : prog unit := Prim (PAssign lhs rhs).
 
 (* add_object: a name conflict in the innermost scope is an error *)
 Definition add_object (name : string) (d : dloc) : prog unit :=
